@@ -161,6 +161,9 @@ func runC14(args []string) {
 			st["combined"] = tr.combined
 			settings = append(settings, st)
 		}
+		if ti == coldFrom {
+			settings = settings[:1] // the cold tree is about ReadFile/Format
+		}
 		perProc := []map[string]string{} // op -> hash|err
 		for p := 0; p < procs; p++ {
 			// the budget is a bound on the whole stress operation (all goroutines' CPU under -race),
@@ -184,7 +187,7 @@ func runC14(args []string) {
 				ReadErr  string            `json:"read_err"`
 				HarnessE string            `json:"harness_error"`
 			}
-			outcome, stderr := feOne(ch, map[string]any{"op": "purity", "path": tr.path, "settings_list": settings, "seq": seq, "g": G, "r": R, "texts": texts}, &out)
+			outcome, stderr := feOne(ch, map[string]any{"op": "purity", "path": tr.path, "settings_list": settings, "seq": seq, "g": G, "r": R, "texts": texts, "aligned": ti == coldFrom || p == procs-1}, &out)
 			ch.Close()
 			loc := map[string]string{"tree": tr.name}
 			if strings.HasPrefix(outcome, "cpu-budget") || strings.HasPrefix(outcome, "wall") {
